@@ -298,6 +298,16 @@ class CSSImportRule(cssrule.CSSRule):
 
             # all possible exceptions are ignored
             try:
+                # a sheet importing itself or a sheet it is imported from
+                # would never end
+                sheet = self.parentStyleSheet
+                while sheet is not None:
+                    if sheet.href == fullhref:
+                        # catched in next except below!
+                        raise OSError('Recursive @import.')
+                    ownerRule = sheet.ownerRule
+                    sheet = ownerRule.parentStyleSheet if ownerRule else None
+
                 usedEncoding, enctype, cssText = self.parentStyleSheet._resolveImport(
                     fullhref
                 )
